@@ -66,7 +66,7 @@ package hedgepolicy
 //@   loop 1 decreases len(executions) - rangeindex
 //@   let c := retb(exec.IsCanceledWithResult, ncalls(exec.IsCanceledWithResult), 0)
 //@   ensures [C09.bounded] spawned() >= 1 && spawned() <= e.maxHedges + 1
-//@   ensures [C09.parent_cancel+C08.hedge.parent_cancel] c ==> result == ret(exec.IsCanceledWithResult, ncalls(exec.IsCanceledWithResult), 1)
+//@   ensures [C09.parent_cancel+C08.hedge.parent_cancel+C15.cancel.hedge_reports_the_recorded_result] c ==> result == ret(exec.IsCanceledWithResult, ncalls(exec.IsCanceledWithResult), 1)
 //@   ensures [C09.returns_received_result] !c ==> local("result") != nil && result == local("result").result
 //@   ensures [C09.losers_cancelled+C08.hedge.cancel_without_result] !c ==> (forall j int :: 0 <= j && j < len(executions) && j != local("result").index && executions[j] != nil ==> ncalls(executions[j].Cancel) >= 1 && lastarg(executions[j].Cancel, 0) == nil)
 //@   ensures [C09.winner_not_cancelled] !c && local("result").index < spawned() ==> ncalls(executions[local("result").index].Cancel) == 0
